@@ -26,6 +26,7 @@ import (
 	"runtime/debug"
 	"sort"
 	"strings"
+	"sync/atomic"
 	"syscall"
 	"time"
 
@@ -63,6 +64,8 @@ func crashWriter(ctx *Ctx) error {
 	if dir == "" {
 		return fmt.Errorf("crashwriter needs dir=")
 	}
+	// a shutdown action that fires before the first operation (points reached while the store opens) stops nothing
+	vh.OnShutdown = func(string, int64) { ctx.Out.Emit(map[string]any{"t": "shutdown-outside-op"}) }
 	core := hub.OpenCore(dir)
 	// every successful commit of the storage engine is a crash point of its own
 	badger.VerifCommitHook = func() { verifhook.Point("badger.commit") }
@@ -71,26 +74,53 @@ func crashWriter(ctx *Ctx) error {
 	s.mg = &mgmtState{deletedIDs: map[uint32]string{}, everNames: map[string]bool{}}
 	sleepUS := 0
 	fmt.Sscanf(ctx.Arg("opsleepus", "0"), "%d", &sleepUS)
+	// shutdown fault: the hub is stopped (Store.Close, what DatahubInstance.Stop does) while an operation is in
+	// flight; the operation runs on against the closed store, its answer is logged, and the process ends
+	var shutdown int32
+	vh.OnShutdown = func(string, int64) {
+		if atomic.CompareAndSwapInt32(&shutdown, 0, 1) {
+			ctx.Out.Emit(map[string]any{"t": "shutdown"})
+			_ = s.core.Store.Close()
+			// the stopped process does not wait for its requests: one that blocks on the closed store (a new badger
+			// transaction waits on the stopped oracle forever) ends unanswered with the process
+			time.AfterFunc(2*time.Second, func() { syscall.Kill(os.Getpid(), syscall.SIGKILL) })
+		}
+	}
 	for i, op := range c.Ops {
 		ctx.Out.Begin("w", i, op.Kind)
 		var err error
-		switch op.Kind {
-		case "compact":
-			worker := dsvc.NewCompactor(s.core.Store, s.core.Dsm, zap.NewNop().Sugar())
-			_, err = worker.VerifCompactSync(op.DS, op.Reader)
-		case "inject", "inject-sametime", "inject-bytecopy":
-			// needs the internal id of the entity: read it from the listing
-			if ds := s.core.Dsm.GetDataset(op.DS); ds != nil {
-				l, _ := obs.Listing(s.core.Store, ds, 0)
-				for _, r := range l {
-					s.iids[r.ID] = r.InternalID
+		func() {
+			defer func() {
+				if p := recover(); p != nil && atomic.LoadInt32(&shutdown) == 1 {
+					// a request that panics against the closed store dies with its connection: unacknowledged
+					syscall.Kill(os.Getpid(), syscall.SIGKILL)
+					select {}
+				} else if p != nil {
+					panic(p)
 				}
+			}()
+			switch op.Kind {
+			case "compact":
+				worker := dsvc.NewCompactor(s.core.Store, s.core.Dsm, zap.NewNop().Sugar())
+				_, err = worker.VerifCompactSync(op.DS, op.Reader)
+			case "inject", "inject-sametime", "inject-bytecopy":
+				// needs the internal id of the entity: read it from the listing
+				if ds := s.core.Dsm.GetDataset(op.DS); ds != nil {
+					l, _ := obs.Listing(s.core.Store, ds, 0)
+					for _, r := range l {
+						s.iids[r.ID] = r.InternalID
+					}
+				}
+				err = s.injectDuplicate(op.DS, op.To, op.Kind == "inject-sametime", op.Kind == "inject-bytecopy")
+			default:
+				err = s.apply(op)
 			}
-			err = s.injectDuplicate(op.DS, op.To, op.Kind == "inject-sametime", op.Kind == "inject-bytecopy")
-		default:
-			err = s.apply(op)
-		}
+		}()
 		ctx.Out.Ack("w", i, err)
+		if atomic.LoadInt32(&shutdown) == 1 {
+			syscall.Kill(os.Getpid(), syscall.SIGKILL)
+			select {}
+		}
 		ctx.Out.Emit(map[string]any{"t": "commits", "op": i, "n": vh.Hits()["badger.commit"]})
 		if sleepUS > 0 {
 			time.Sleep(time.Duration(sleepUS) * time.Microsecond)
@@ -105,6 +135,9 @@ type crashPlan struct {
 	Point  string `json:"point"`
 	Hit    int64  `json:"hit"`
 	KillUS int    `json:"kill_us,omitempty"` // timed SIGKILL from the driver instead of a hook
+	// Shutdown: the store is closed under the operation that reaches the point (hub stopped while a request is in
+	// flight); the operation's own answer decides whether it counts as acknowledged
+	Shutdown bool `json:"shutdown,omitempty"`
 }
 
 func genCrashCase(r *rand.Rand, family string) SDCase {
@@ -308,7 +341,17 @@ func runCrashCase(ctx *Ctx, r *rand.Rand, c SDCase, family, prop string, pairsPe
 		commitPlans = commitPlans[:(pairsPerCase+1)/2]
 	}
 	ctx.Out.Stat("crash_commit_points_available", int64(len(commitPlans)))
+	// plus: the hub is stopped (store closed) while the operation that reaches a point is in flight
+	var shutdownPlans []crashPlan
+	for _, cp := range all {
+		shutdownPlans = append(shutdownPlans, crashPlan{Point: cp.Point, Hit: cp.Hit, Shutdown: true})
+	}
+	r.Shuffle(len(shutdownPlans), func(i, j int) { shutdownPlans[i], shutdownPlans[j] = shutdownPlans[j], shutdownPlans[i] })
+	if n := (pairsPerCase + 2) / 3; pairsPerCase > 0 && len(shutdownPlans) > n {
+		shutdownPlans = shutdownPlans[:n]
+	}
 	all = append(all, commitPlans...)
+	all = append(all, shutdownPlans...)
 	for i := 0; i < timed; i++ {
 		all = append(all, crashPlan{Point: "timed", KillUS: 200 + r.Intn(timedMaxUS)})
 	}
@@ -321,7 +364,26 @@ func runCrashCase(ctx *Ctx, r *rand.Rand, c SDCase, family, prop string, pairsPe
 		id := outHash(sub)
 		dir := filepath.Join(base, "run")
 		_ = os.RemoveAll(dir)
-		res, killed, err := runWriter(ctx, caseFile, dir, cp.Point, cp.Hit, cp.KillUS)
+		res, killed, err := runWriter(ctx, caseFile, dir, cp.Point, cp.Hit, cp.KillUS, cp.Shutdown)
+		if cp.Shutdown && err == nil && res != nil {
+			if res.shutdownOutside && !res.shutdown {
+				ctx.Out.Stat("shutdown_point_reached_while_opening", 1)
+				continue
+			}
+			if !res.shutdown {
+				killed = false
+			} else if e, bad := res.ackErr[res.acked-1]; res.inflight < 0 && res.acked > 0 && bad {
+				// the operation under which the store was closed answered with an error: unacknowledged, and like an
+				// operation cut by a kill it is either entirely there or not at all
+				ctx.Out.Stat("shutdown_op_answered_error", 1)
+				_ = e
+				delete(res.ackErr, res.acked-1)
+				res.acked--
+				res.inflight = res.acked
+			} else if res.inflight < 0 {
+				ctx.Out.Stat("shutdown_op_answered_ok", 1)
+			}
+		}
 		inflight := -1
 		if res != nil {
 			inflight = res.inflight
@@ -340,7 +402,11 @@ func runCrashCase(ctx *Ctx, r *rand.Rand, c SDCase, family, prop string, pairsPe
 				continue
 			}
 		}
-		ctx.Out.Stat("crash:"+cp.Point, 1)
+		if cp.Shutdown {
+			ctx.Out.Stat("shutdown:"+cp.Point, 1)
+		} else {
+			ctx.Out.Stat("crash:"+cp.Point, 1)
+		}
 		if inflight >= 0 {
 			ctx.Out.Stat("crash_inside_op", 1)
 		} else {
@@ -360,16 +426,18 @@ func lenAcked(r *writerResult) int {
 }
 
 type writerResult struct {
-	acked    int // ops 0..acked-1 are acknowledged
-	inflight int // index of the op begun but not acked (-1 = none)
-	done     bool
-	hits     map[string]int64
-	ackErr   map[int]string
-	commits  map[int]int64 // op index -> number of storage-engine commits done when the op was acknowledged
+	acked           int // ops 0..acked-1 are acknowledged
+	inflight        int // index of the op begun but not acked (-1 = none)
+	done            bool
+	hits            map[string]int64
+	ackErr          map[int]string
+	commits         map[int]int64 // op index -> number of storage-engine commits done when the op was acknowledged
+	shutdown        bool          // the store was closed under an operation (shutdown fault)
+	shutdownOutside bool          // the shutdown point was reached while the store was opening, not under an operation
 }
 
 // runWriter starts a crashwriter sub-child. Returns its op log summary and whether it was killed.
-func runWriter(ctx *Ctx, caseFile, dir, point string, hit int64, killUS int) (*writerResult, bool, error) {
+func runWriter(ctx *Ctx, caseFile, dir, point string, hit int64, killUS int, shutdown ...bool) (*writerResult, bool, error) {
 	_ = os.MkdirAll(dir, 0o755)
 	outf := filepath.Join(dir, "oplog.jsonl")
 	args := []string{"-scenario", "crashwriter", "-seed", fmt.Sprint(ctx.Seed), "-cases", "1", "-tier", ctx.Tier,
@@ -382,7 +450,11 @@ func runWriter(ctx *Ctx, caseFile, dir, point string, hit int64, killUS int) (*w
 		}
 	}
 	if point != "" && point != "timed" {
-		env = append(env, fmt.Sprintf("VERIF_HOOKS=%s=crash@%d", point, hit))
+		act := "crash"
+		if len(shutdown) > 0 && shutdown[0] {
+			act = "shutdown"
+		}
+		env = append(env, fmt.Sprintf("VERIF_HOOKS=%s=%s@%d", point, act, hit))
 	}
 	cmd.Env = env
 	var stderr bytes.Buffer
@@ -394,9 +466,21 @@ func runWriter(ctx *Ctx, caseFile, dir, point string, hit int64, killUS int) (*w
 	if killUS > 0 {
 		timer = time.AfterFunc(time.Duration(killUS)*time.Microsecond, func() { _ = cmd.Process.Signal(syscall.SIGKILL) })
 	}
-	watchdog := time.AfterFunc(120*time.Second, func() { _ = cmd.Process.Signal(syscall.SIGKILL) })
+	var hung int32
+	watchdog := time.AfterFunc(120*time.Second, func() {
+		atomic.StoreInt32(&hung, 1)
+		_ = cmd.Process.Signal(syscall.SIGQUIT)
+		time.Sleep(5 * time.Second)
+		_ = cmd.Process.Signal(syscall.SIGKILL)
+	})
 	werr := cmd.Wait()
 	watchdog.Stop()
+	if atomic.LoadInt32(&hung) == 1 {
+		if keep := os.Getenv("VERIF_KEEP_FAILED"); keep != "" {
+			_ = os.WriteFile(filepath.Join(keep, fmt.Sprintf("hung-writer-%s-%d.txt", point, hit)), stderr.Bytes(), 0o644)
+		}
+		return nil, false, fmt.Errorf("writer did not finish within the watchdog (point %s hit %d): %s", point, hit, tailStr(stderr.String(), 300))
+	}
 	if timer != nil {
 		timer.Stop()
 	}
@@ -438,6 +522,10 @@ func runWriter(ctx *Ctx, caseFile, dir, point string, hit int64, killUS int) (*w
 				res.ackErr[op] = e
 			}
 			begun = -1
+		case "shutdown":
+			res.shutdown = true
+		case "shutdown-outside-op":
+			res.shutdownOutside = true
 		case "commits":
 			res.commits[int(m["op"].(float64))] = int64(m["n"].(float64))
 		case "stat":
